@@ -145,9 +145,24 @@ def analyse_next(crate, nx):
             site = e[3]
             is_item = lambda x: x[0] == 'field' and x[2] == '0' and norm(x[1])[0] == 'downcast' and norm(x[1])[2] == 'Some' and norm(norm(x[1])[1])[0] == 'call' and norm(norm(x[1])[1])[3] == site
             for bj in sorted(lp[1]):
-                for c in nx.conds(bj):
-                    if c['switch'] in lp[1] and c['kind'] in ('Gt', 'Ge', 'Lt', 'Le', 'Eq') and c.get('truth') is True and c.get('b') is not None:
-                        rec['pred'] = _desc(c['kind'], c['a'], c['b'], is_item)
+                tt = nx.blocks[bj]['term']
+                if tt['t'] != 'switch':
+                    continue
+                c = nx.cond_of(bj, frozenset(['else']))
+                if c['kind'] in ('Gt', 'Ge', 'Lt', 'Le', 'Eq') and c.get('truth') is True and c.get('b') is not None:
+                    # the yielding edge is the one that leaves the loop
+                    tgt_true = tt['otherwise']
+                    leaves = tgt_true not in lp[1] or any(nx.blocks[x]['term']['t'] == 'return' for x in [tgt_true])
+                    pred_c = c if leaves else None
+                    if pred_c is None:
+                        c0 = nx.cond_of(bj, frozenset(['0']))
+                        t0 = [tb for v, tb in tt['targets'] if v == '0']
+                        if t0 and t0[0] not in lp[1] and c0['kind'] in ('Gt', 'Ge', 'Lt', 'Le', 'Eq'):
+                            # yields on the false edge: the complementary comparison (exact for the values compared with a literal here)
+                            comp = {'Gt': 'Le', 'Ge': 'Lt', 'Lt': 'Ge', 'Le': 'Gt'}.get(c0['kind'])
+                            pred_c = dict(c0, kind=comp) if comp else None
+                    if pred_c is not None:
+                        rec['pred'] = _desc(pred_c['kind'], pred_c['a'], pred_c['b'], is_item)
         if s in MULTI:
             rec['kind'] = 'multi'
             if s in ('find', 'filter', 'position', 'skip_while', 'take_while') and len(e[2]) > 1:
